@@ -27,7 +27,7 @@ impl Scenario for Frames {
         "three case kinds: (a) one generated value, EOF at EVERY strict cut point of its encoding when it is <= 512 bytes (cuts within 16 bytes of every annotation boundary + 64 spread cuts otherwise), each cut delivered by slice, IoReader<SimRead> (EOF after k bytes) and unknown-length SimInput: must fail; (b) a stream of 2..20 frames of mixed subjects decoded value by value from one benign source, optionally cut at a drawn point: frames before the cut decode to the sent values at the running offsets, the frame containing the cut fails; (c) arbitrary byte strings: decode_all is Ok(v) iff decode is Ok(v) with nothing left, same for decode_all_with_depth_limit vs decode_with_depth_limit at limits 0..=4 and u32::MAX; every cut / frame / equivalence is one sub-run; non-trivial = EOF fault fired or more than one seam call or input longer than one byte"
     }
     fn cases(&self, tier: Tier) -> u64 {
-        tiered(tier, 150_000, 15_000_000)
+        tiered(tier, 600_000, 20_000_000)
     }
     fn gen(&self, seed: u64, idx: u64, _tier: Tier) -> Plan {
         let mut rng = Rng::for_case(seed, "frames", idx);
